@@ -485,7 +485,7 @@ def discovered(pid, tier, replay):
 def dyndep(pid, tier, replay):
     if replay:
         return engine.engine_replay(pid, replay)
-    fams = _fams([dict(fam="dyn", K=1, CH=6)], [dict(fam="dyn", K=1, CH=40)], tier)
+    fams = _fams([dict(fam="dyn", K=1, CH=6), dict(fam="ddvar", spec="Dyndep", K=0, CH=0)], [dict(fam="dyn", K=1, CH=40), dict(fam="ddvar", spec="Dyndep", K=0, CH=0)], tier)
     return engine.engine_check(pid, fams, tier, maxruns=24 if tier == "quick" else 200, props=["C11"])
 
 
@@ -503,7 +503,9 @@ def dryrun(pid, tier, replay):
     if replay:
         return engine.engine_replay(pid, replay)
     fams = _fams([dict(fam="dry", K=4, CH=4)], [dict(fam="dry", K=40, CH=12)], tier)
-    return engine.engine_check(pid, fams, tier, maxruns=8 if tier == "quick" else 32, props=["C19"])
+    # the read-only tools exist in the real binary only: family `tools` runs there (H2)
+    h2 = dict(fams=[dict(fam="tools", K=2, CH=2)] if tier == "quick" else [dict(fam="tools", K=12, CH=6)], limit=90 if tier == "quick" else 1500, maxruns=1)
+    return engine.engine_check(pid, fams, tier, maxruns=8 if tier == "quick" else 32, props=["C19"], h2=h2)
 
 
 @reg("C18")
